@@ -53,21 +53,10 @@ _AN1 = "az"
 _AN2 = ["", "a", "0", "-"]
 
 
-def _pre_attr(B, a0, a1, bsel, csel, v):
-    return 0 <= a0 <= 1 and 0 <= a1 <= 3 and 0 <= bsel <= 3 and 0 <= csel <= 1 and len(v) <= B["L"]
+_HOSTILE = ["", "v", '"', "'>", "a\nb", "&amp;<"]
 
 
-@harness("C01", pre=_pre_attr, bounds={"quick": {"L": 1}, "thorough": {"L": 2}},
-         shard={"a0": range(2), "a1": range(4), "bsel": range(4)},
-         sym=["v: attribute value, str over all code points, len <= L"],
-         sel=["a0, a1: first attribute name over [az][a0-]?", "bsel, csel: second / third name (coinciding with the first or distinct)"],
-         targets=["htmltools._core.Tag.get_html_string", "htmltools._core.TagAttrDict.update"],
-         timeout={"quick": 300, "thorough": 1500})
-def h_attr_syntax(a0: int, a1: int, bsel: int, csel: int, v: str) -> bool:
-    """same attribute names in insertion order, each once, as name="value" with the value escaped so that it decodes to the stored value"""
-    na = pick(a0, _AN1) + pick(a1, _AN2)
-    nb = pick(bsel, [na, "z", "a0", "z-"])
-    nc = pick(csel, [na, "k"])
+def _attr_case(na, nb, nc, v):
     w, x = "<'", "\n&"
     t = Tag("p", {na: v}, {nb: w}, **{nc: x})
     names, vals = [], {}
@@ -81,6 +70,30 @@ def h_attr_syntax(a0: int, a1: int, bsel: int, csel: int, v: str) -> bool:
     for nm in names:
         want += " " + nm + '="' + ref_escape_attr(vals[nm]) + '"'
     return t.get_html_string() == want + "></p>"
+
+
+@harness("C01", pre=lambda B, a0, a1, bsel, csel, vi: 0 <= a0 <= 1 and 0 <= a1 <= 3 and 0 <= bsel <= 3 and 0 <= csel <= 1 and 0 <= vi < len(_HOSTILE),
+         shard={"a0": range(2)},
+         sel=["a0, a1: first attribute name over [az][a0-]?", "bsel, csel: second / third name (coinciding with the first or distinct)", "vi: value from a hostile catalogue"],
+         targets=["htmltools._core.Tag.get_html_string", "htmltools._core.TagAttrDict.update"])
+def h_attr_syntax(a0: int, a1: int, bsel: int, csel: int, vi: int) -> bool:
+    """same attribute names in insertion order, each once, as name="value" with the value escaped so that it decodes to the stored value"""
+    na = pick(a0, _AN1) + pick(a1, _AN2)
+    nb = pick(bsel, [na, "z", "a0", "z-"])
+    nc = pick(csel, [na, "k"])
+    return concrete(_attr_case, na, nb, nc, pick(vi, _HOSTILE))
+
+
+@harness("C01", pre=lambda B, case, v: 0 <= case <= 2 and len(v) <= B["L"], bounds={"quick": {"L": 1}, "thorough": {"L": 2}},
+         shard={"case": range(3)},
+         sym=["v: attribute value, str over all code points, len <= L"], sel=["case: three distinct names / second coincides / third coincides"],
+         targets=["htmltools._core.Tag.get_html_string"], timeout={"quick": 300, "thorough": 1500})
+def h_attr_value_sym(case: int, v: str) -> bool:
+    if case == 0:
+        return _attr_case("a", "z-", "k", v)
+    if case == 1:
+        return _attr_case("a0", "a0", "k", v)
+    return _attr_case("z", "a", "z", v)
 
 
 # ---------------------------------------------------------------------------
